@@ -51,6 +51,23 @@ Theorem C14_output_bytes_total_deterministic : C14_full_statement_bytes.
 Proof. exact CmpbBytesProofs.output_total_deterministic. Qed.
 Print Assumptions C14_output_bytes_total_deterministic.
 
+(* the same with the PackageSet in ANY admissible state instead of a history of successful calls: [pc] / [lc] hold only what
+   loading / linking produce for this source set (both_ok) and the loaded packages are closed under dependencies - which is what
+   every earlier call leaves, ALSO a failed one (Go keeps the dependencies it had loaded and the files it had linked) *)
+Theorem C14_output_bytes_any_packageset_state : forall bd exts ann pkgs rank frank n,
+  let b0 := CmpbBytes.flat_bundle pkgs (CmpbBytes.src_files bd) in
+  valid b0 -> well_founded_deps b0 rank ->
+  owner_ok (cmpa_convert bd) CmpbBytes.split_owner (CmpbBytes.is_local_of pkgs) b0 ->
+  imports_wf (cmpa_convert bd) CmpbBytes.split_owner (CmpbBytes.is_local_of pkgs) (CmpbBytes.c_ext_file exts) CmpbBytes.c_deps_of b0 frank ->
+  find_pkg n b0 <> None -> CmpbBytesProofs.ann_ok ann ->
+  exists o : CmpbBytes.output, forall r pc lc, CmpbBytes.run_ok pkgs bd r ->
+    both_ok (cmpa_convert bd) CmpbBytes.split_owner (CmpbBytes.is_local_of pkgs) (CmpbBytes.c_ext_file exts) CmpbBytes.c_deps_of CmpbBytes.c_link1 b0 pc lc ->
+    cache_closed b0 pc -> (rank n < CmpbBytes.r_fuel r)%nat ->
+    (forall f, In f (map fst (p_files (spec_pkg (cmpa_convert bd) b0 n))) -> (frank f < CmpbBytes.r_lfuel r)%nat) ->
+    option_map (CmpbBytes.render ann (CmpbBytes.r_range r)) (CmpbBytes.compile_from bd exts r pc lc n) = Some o.
+Proof. exact CmpbBytesProofs.output_from_any_state. Qed.
+Print Assumptions C14_output_bytes_any_packageset_state.
+
 (* without the well-formedness hypotheses on imports: two runs that both return, return the same output *)
 Theorem C14_output_bytes_deterministic : forall bd exts ann pkgs n r1 r2 o1 o2,
   valid (CmpbBytes.flat_bundle pkgs (CmpbBytes.src_files bd)) -> CmpbBytesProofs.ann_ok ann ->
